@@ -276,7 +276,8 @@ pub fn kdf_within_budget(data: &[u8]) -> bool {
         if t == 11 {
             return match lenient_kdf(&data[pos + 5..pos + 5 + l]) {
                 Some(Kdf::Aes { rounds, .. }) => rounds <= 200_000,
-                Some(Kdf::Argon2 { memory, iterations, parallelism, .. }) => memory <= 64 * 1024 * 1024 && iterations <= 8 && parallelism <= 8 && memory / 1024 >= 8 * parallelism as u64,
+                // the library narrows memory/1024 and the iteration count to 32 bits: the cost is that of the narrowed values
+                Some(Kdf::Argon2 { memory, iterations, parallelism, .. }) => { let (m, i) = (((memory / 1024) as u32) as u64 * 1024, (iterations as u32) as u64); m <= 64 * 1024 * 1024 && i <= 8 && parallelism <= 8 && (m / 1024 >= 8 * parallelism as u64 || m / 1024 < 8) }
                 None => true,
             };
         }
@@ -434,7 +435,8 @@ pub fn run_cred(ctx: &mut Ctx) {
 fn edit_creds(rng: &mut Rng, c: &Creds) -> (Option<String>, Option<Vec<u8>>, &'static str) {
     let pw = c.pw.clone();
     let kf = c.kf.clone();
-    match rng.below(15) {
+    match rng.below(16) {
+        15 => (pw, kf.map(|k| { let t = String::from_utf8_lossy(&k).to_string(); if t.contains("<Version>2.0</Version>") { t.replacen("<Version>2.0</Version>", *rng.pick(&["<Version>2.1</Version>", "<Version>2.00</Version>", "<Version>2.</Version>", "<Version>2.0 </Version>"]), 1).into_bytes() } else if t.contains("<Version>1.00</Version>") { t.replacen("<Version>1.00</Version>", "<Version>1.0</Version>", 1).into_bytes() } else { let mut k = k; k.insert(0, b' '); k } }).or(Some(vec![4u8; 32])), "keyfile-version-text-changed"),
         14 => (pw, kf.map(|k| { let t = String::from_utf8_lossy(&k).to_string(); if t.contains("=</Data>") { t.replacen("=</Data>", "</Data>", 1).into_bytes() } else if t.contains("</Data>") { t.replacen("</Data>", "=</Data>", 1).into_bytes() } else { let mut k = k; k.push(b'='); k } }).or(Some(vec![3u8; 32])), "keyfile-payload-padding-changed"),
         12 => (pw, kf.map(|mut k| { if let Some(l) = k.last_mut() { *l ^= 1 << rng.below(8); } else { k.push(1); } k }).or(Some(vec![1u8; 33])), "keyfile-last-byte-flip"),
         13 => (pw, kf.map(|mut k| { if k.len() > 1 { k.pop(); } else { k.push(7); } k }).or(Some(vec![2u8; 31])), "keyfile-one-byte-shorter-or-longer"),
@@ -607,9 +609,19 @@ pub fn run_fuzz4(ctx: &mut Ctx) {
                 2 => {
                     // authenticated but malformed interior: rebuild with a broken payload
                     let mut s2 = spec.clone();
-                    let how = rng.below(7);
+                    let how = rng.below(8);
                     let mut l2 = layout.clone();
-                    if how == 6 {
+                    if how == 7 {
+                        // Argon2 parameters beyond 32 bits (KeePass stores 64-bit values; the library narrows them)
+                        s2.kdf = Kdf::Argon2 { id: rng.chance(1, 2), version: 0x13, memory: (1u64 << 42) + 1024 * rng.range(16, 64), iterations: (1u64 << 32) + rng.range(1, 3), parallelism: 1, salt: rng.bytes(32) };
+                        if rng.chance(1, 2) {
+                            if let Kdf::Argon2 { ref mut memory, .. } = s2.kdf { *memory = 1024 * 64; }
+                        }
+                        match kdbx::build_kdbx4(&s2, &l2, &comp) {
+                            Ok(d) => (d, "argon2-parameters-beyond-32-bits".to_string()),
+                            Err(_) => (data.clone(), "unchanged".to_string()),
+                        }
+                    } else if how == 6 {
                         // an IV / nonce of a length the outer cipher does not take, in a header that authenticates under the key
                         s2.iv = rng.bytes_pick(&[0usize, 8, 12, 16, 24, 32]);
                         if s2.iv.len() == s2.outer.iv_len() {
